@@ -412,3 +412,256 @@ Proof.
   rewrite Hm. exists ks'. split; [reflexivity|]. split; [exact Hks'|].
   now rewrite He, Hp in Ha.
 Qed.
+
+Local Opaque TOKEN.
+Local Arguments N.eqb : simpl never.
+
+(* ------------------------------------------------------------------ *)
+(* the exact node                                                       *)
+(* ------------------------------------------------------------------ *)
+Lemma apply_item_spec n it nm n' :
+  wf n -> apply_item n it nm = SOk n' ->
+  wf n' /\ nkey n' = nkey n /\ nflt n' = nflt n /\ adds (paths n') (item_entries it nm) (paths n).
+Proof.
+  destruct n as [key d nm0 f h ks]. intros Hw. apply wf_inv in Hw. destruct Hw as (H1 & H2 & H3 & H4).
+  unfold apply_item. destruct it as [d'|h'].
+  - destruct d as [x|]; [discriminate|]. intros [= <-]. split; [now constructor|].
+    split; [reflexivity|]. split; [reflexivity|]. intros e. rewrite !paths_node. simpl. tauto.
+  - destruct h as [x|]; [discriminate|]. intros [= <-]. split; [now constructor|].
+    split; [reflexivity|]. split; [reflexivity|]. intros e. rewrite !paths_node. simpl. tauto.
+Qed.
+
+(* ------------------------------------------------------------------ *)
+(* the statement for a node                                             *)
+(* ------------------------------------------------------------------ *)
+Definition new_entries (route : str) (fl : list (option fid)) (pidx : nat) (it : item) (nm : list str) :=
+  map (pre (fpat route (skipn pidx fl))) (item_entries it nm).
+
+Definition set_ok (n : node) : Prop :=
+  forall route fl pidx it nm n',
+    wf n -> ntok route + pidx <= length fl -> set_at n route fl pidx it nm = SOk n' ->
+    wf n' /\ nkey n' = nkey n /\ nflt n' = nflt n /\
+    adds (paths n') (new_entries route fl pidx it nm) (paths n).
+
+Lemma kid_entries_same_key k k' :
+  nkey k' = nkey k -> nflt k' = nflt k -> key_pcs k' = key_pcs k.
+Proof. intros H1 H2. unfold key_pcs. now rewrite H1, H2. Qed.
+
+Lemma wf_set_key k s : wf k -> wf (set_key k s).
+Proof. destruct k as [key d nm f h ks]. intros H. apply wf_inv in H. destruct H as (?&?&?&?). now constructor. Qed.
+
+Lemma paths_set_key k s : paths (set_key k s) = paths k.
+Proof. now destruct k. Qed.
+
+Lemma nkey_set_key k s : nkey (set_key k s) = s.
+Proof. now destruct k. Qed.
+
+Lemma firstn_hd {A} (d : A) n l : 0 < n -> hd d (firstn n l) = hd d l.
+Proof. destruct n; [lia|]. now destruct l. Qed.
+
+Lemma set_kid_spec k c0 r fl pidx it nm k' :
+  head_is k c0 = true -> wf k -> key_ok (nkey k) -> set_ok k ->
+  ntok (c0 :: r) + pidx <= length fl ->
+  set_kid (fun k r p => set_at k r fl p it nm) fl it nm k (c0 :: r) pidx = inl k' ->
+  wf k' /\ key_ok (nkey k') /\ khead k' = khead k /\
+  adds (kid_entries k') (new_entries (c0 :: r) fl pidx it nm) (kid_entries k).
+Proof.
+  intros Hh Hw Hk IH Hn. set (route := c0 :: r) in *. unfold set_kid.
+  assert (Hkh : khead k = c0) by (apply head_is_khead; [apply Hk | exact Hh]).
+  destruct (prefixb (nkey k) route) eqn:Ep.
+  - (* the key matches: descend *)
+    destruct (str_eqb_spec (nkey k) tok) as [Ht|Ht].
+    + (* wildcard child *)
+      assert (Hc0 : c0 = TOKEN).
+      { rewrite Ht in Ep. apply prefixb_spec in Ep. destruct Ep as [r' Er'].
+        unfold route, tok in Er'. simpl in Er'. now injection Er'. }
+      assert (Hnt : ntok route = S (ntok r)) by (unfold route; simpl; rewrite Hc0, N.eqb_refl; reflexivity).
+      rewrite Hnt in Hn.
+      unfold filter_check. destruct fl as [|f0 fl0] eqn:Efl; [simpl in Hn; lia|]. rewrite <- Efl in *.
+      destruct (nth_error fl pidx) as [f'|] eqn:Enth; [|discriminate].
+      destruct (ofid_eqb (nflt k) f') eqn:Eof; [|discriminate].
+      apply ofid_eqb_eq in Eof.
+      destruct (set_at k (skipn 1 route) fl (S pidx) it nm) as [k1|e] eqn:Es; [|discriminate].
+      intros [= <-].
+      destruct (IH (skipn 1 route) fl (S pidx) it nm k1 Hw) as (Hw1 & Hk1 & Hf1 & Ha); [unfold route; simpl; lia | exact Es|].
+      split; [exact Hw1|]. split; [now rewrite Hk1|]. split; [unfold khead; now rewrite Hk1|].
+      unfold kid_entries. rewrite (kid_entries_same_key k k1 Hk1 Hf1).
+      apply (adds_map_pre (key_pcs k)) in Ha. unfold new_entries in *. rewrite map_pre_pre in Ha.
+      rewrite key_pcs_tok in Ha |- * by exact Ht.
+      replace (fpat route (skipn pidx fl)) with ([PW (nflt k)] ++ fpat (skipn 1 route) (skipn (S pidx) fl)); [exact Ha|].
+      rewrite (nth_error_skipn fl pidx f' Enth). unfold route. simpl. rewrite Hc0, N.eqb_refl. now rewrite Eof.
+    + (* literal child *)
+      assert (Hlit : ~ In TOKEN (nkey k)) by (destruct Hk as [_ [E|E]]; [contradiction | exact E]).
+      destruct (set_at k (skipn (length (nkey k)) route) fl pidx it nm) as [k1|e] eqn:Es; [|discriminate].
+      intros [= <-]. pose proof (prefixb_split _ _ Ep) as Hsplit.
+      destruct (IH (skipn (length (nkey k)) route) fl pidx it nm k1 Hw) as (Hw1 & Hk1 & Hf1 & Ha);
+        [rewrite <- (ntok_lit (nkey k)) by exact Hlit; now rewrite <- Hsplit | exact Es|].
+      split; [exact Hw1|]. split; [now rewrite Hk1|]. split; [unfold khead; now rewrite Hk1|].
+      unfold kid_entries. rewrite (kid_entries_same_key k k1 Hk1 Hf1).
+      apply (adds_map_pre (key_pcs k)) in Ha. unfold new_entries in *. rewrite map_pre_pre in Ha.
+      rewrite key_pcs_lit in Ha |- * by (auto; apply Hk).
+      rewrite <- fpat_lit in Ha by exact Hlit. now rewrite <- Hsplit in Ha.
+  - (* PARTIAL: split the child *)
+    assert (Ht : nkey k <> tok).
+    { intros Ht. assert (Hc : c0 = TOKEN) by (rewrite <- Hkh; unfold khead; now rewrite Ht).
+      assert (E : prefixb (nkey k) route = true)
+        by (rewrite Ht; apply prefixb_spec; exists r; unfold route; now rewrite Hc). congruence. }
+    assert (Hlit : ~ In TOKEN (nkey k)) by (destruct Hk as [_ [E|E]]; [contradiction | exact E]).
+    destruct (nkey k) as [|x key_t] eqn:Ekey; [destruct Hk; contradiction|].
+    assert (Hx : x = c0) by (unfold khead in Hkh; rewrite Ekey in Hkh; exact Hkh). subst x.
+    assert (Hc0 : c0 <> TOKEN) by (intros E; apply Hlit; now left).
+    destruct (upto_tok_split route) as (tail & Hroute & Hupnt & Htail).
+    set (up := upto_tok route) in *.
+    assert (Hup : up = c0 :: upto_tok r).
+    { unfold up, route. simpl. destruct (N.eqb_spec c0 TOKEN); [contradiction | reflexivity]. }
+    set (si := cpl (c0 :: key_t) up).
+    assert (Hsi_pos : 0 < si) by (unfold si; rewrite Hup; apply cpl_pos).
+    assert (Hsi_le : si <= length (c0 :: key_t)) by apply cpl_le_l.
+    assert (Hsi_up : si <= length up) by apply cpl_le_r.
+    assert (Hsi_lt : si < length (c0 :: key_t)).
+    { destruct (Nat.eq_dec si (length (c0 :: key_t))) as [E|E]; [|lia]. exfalso.
+      apply cpl_full in E. assert (prefixb up route = true) by (apply prefixb_spec; eauto).
+      rewrite (prefixb_trans _ _ _ E H) in Ep. discriminate. }
+    set (A := firstn si (c0 :: key_t)). set (B := skipn si (c0 :: key_t)).
+    assert (HAB : c0 :: key_t = A ++ B) by (symmetry; apply firstn_skipn).
+    assert (HAnt : ~ In TOKEN A) by (apply not_in_firstn; exact Hlit).
+    assert (HBnt : ~ In TOKEN B) by (apply not_in_skipn; exact Hlit).
+    assert (HAne : A <> []).
+    { unfold A. destruct si; [lia|]. discriminate. }
+    assert (HBne : B <> []).
+    { unfold B. intros E. apply (f_equal (@length N)) in E. rewrite skipn_length in E.
+      change (length (@nil N)) with 0 in E. lia. }
+    assert (HAroute : firstn si route = A).
+    { unfold A, si. rewrite cpl_firstn. rewrite Hroute at 1. rewrite firstn_app.
+      replace (cpl (c0 :: key_t) up - length up) with 0 by (fold si; lia). simpl. now rewrite app_nil_r. }
+    assert (Hroute2 : route = A ++ skipn si route) by (rewrite <- HAroute; symmetry; apply firstn_skipn).
+    assert (HhdA : hd 0%N A = c0) by (unfold A; rewrite firstn_hd by exact Hsi_pos; reflexivity).
+    (* the old node under its shortened key, and the fresh parent *)
+    set (old := set_key k B).
+    assert (Hwold : wf old) by (apply wf_set_key; exact Hw).
+    assert (Hkold : key_ok (nkey old)) by (unfold old; rewrite nkey_set_key; split; auto).
+    assert (Heold : kid_entries old = map (pre (map PC B)) (paths k)).
+    { unfold kid_entries, old. rewrite paths_set_key, key_pcs_lit; rewrite ?nkey_set_key; auto. }
+    assert (Hek : kid_entries k = map (pre (map PC A)) (kid_entries old)).
+    { rewrite Heold, map_pre_pre, <- map_app. unfold kid_entries. rewrite key_pcs_lit; rewrite ?Ekey; auto; [|discriminate].
+      now rewrite HAB. }
+    fold si. fold B. destruct B as [|b0 Bt] eqn:EB; [contradiction|]. rewrite <- EB in *.
+    fold old. fold A.
+    destruct (skipn si route) as [|c1 rt] eqn:Erest.
+    + (* the route ends inside the key *)
+      destruct (apply_item (Node A None [] None None [old]) it nm) as [p|e] eqn:Eap; [|discriminate].
+      intros [= <-].
+      destruct (apply_item_spec _ _ _ _ (wf_single A None old Hwold Hkold) Eap) as (Hwp & Hkp & Hfp & Ha).
+      simpl in Hkp, Hfp.
+      split; [exact Hwp|]. split; [rewrite Hkp; split; auto|].
+      split; [unfold khead; rewrite Hkp, Ekey; simpl; exact HhdA|].
+      unfold kid_entries at 1. rewrite (kid_entries_same_key (Node A None [] None None [old]) p Hkp Hfp).
+      apply (adds_map_pre (key_pcs (Node A None [] None None [old]))) in Ha.
+      change (map (pre (key_pcs (Node A None [] None None [old]))) (paths (Node A None [] None None [old])))
+        with (kid_entries (Node A None [] None None [old])) in Ha.
+      rewrite kid_entries_single in Ha. rewrite key_pcs_lit in Ha by (simpl; auto).
+      simpl nkey in Ha. rewrite <- Hek in Ha. unfold new_entries.
+      rewrite (key_pcs_lit (Node A None [] None None [old])) by (simpl; auto). simpl nkey.
+      replace (fpat route (skipn pidx fl)) with (map PC A); [exact Ha|].
+      rewrite Hroute2, app_nil_r. rewrite <- (app_nil_r A) at 2. rewrite fpat_lit by exact HAnt. simpl. now rewrite app_nil_r.
+    + (* a new branch below the fresh parent *)
+      assert (Hrest_hd : c1 <> hd 0%N B).
+      { rewrite EB. simpl.
+        assert (Hsk : skipn si route = skipn si up ++ tail).
+        { rewrite Hroute at 1. rewrite skipn_app. replace (si - length up) with 0 by lia. reflexivity. }
+        rewrite Erest in Hsk. destruct (skipn si up) as [|y b'] eqn:Eup.
+        - simpl in Hsk. destruct Htail as [->|[t ->]]; [discriminate|]. injection Hsk as -> _.
+          intros E. apply HBnt. rewrite EB. left. now symmetry.
+        - simpl in Hsk. injection Hsk as -> _. intros E. symmetry in E. revert E.
+          apply (cpl_max (c0 :: key_t) up b0 Bt y b'); [exact EB | exact Eup]. }
+      destruct (make_route_spec [old] (c1 :: rt) (skipn pidx fl) it nm) as (pk & Hmk & Hpk & Ha).
+      * split; [now constructor|]. split; [now constructor|]. split; [|exact I].
+        simpl. constructor; [intros [] | constructor].
+      * discriminate.
+      * rewrite skipn_length. rewrite Hroute2, ntok_lit in Hn by exact HAnt. lia.
+      * simpl. unfold khead, old. rewrite nkey_set_key. intros [E|[]]. apply Hrest_hd.
+        rewrite EB. simpl in *. congruence.
+      * rewrite Hmk. intros [= <-]. destruct Hpk as (P1 & P2 & P3 & P4).
+        split; [now constructor|]. split; [split; auto|].
+        split; [unfold khead; simpl; rewrite Ekey; simpl; exact HhdA|].
+        unfold kid_entries at 1. rewrite key_pcs_lit by (simpl; auto). simpl nkey.
+        rewrite paths_node. simpl app.
+        apply (adds_map_pre (map PC A)) in Ha. rewrite map_pre_pre in Ha.
+        rewrite kids_entries_cons in Ha. unfold kids_entries at 2 in Ha. simpl flat_map in Ha.
+        rewrite app_nil_r, <- Hek in Ha. unfold new_entries.
+        replace (fpat route (skipn pidx fl)) with (map PC A ++ fpat (c1 :: rt) (skipn pidx fl)); [exact Ha|].
+        rewrite Hroute2 at 1. now rewrite fpat_lit by exact HAnt.
+Qed.
+
+Lemma set_go_spec ks : forall c0 r fl pidx it nm,
+  Forall wf ks -> Forall (fun k => key_ok (nkey k)) ks -> Forall set_ok ks ->
+  ntok (c0 :: r) + pidx <= length fl ->
+  match set_go (fun k r p => set_at k r fl p it nm) fl it nm c0 (c0 :: r) pidx ks with
+  | None => ~ In c0 (map khead ks)
+  | Some (inl ks') =>
+    Forall wf ks' /\ Forall (fun k => key_ok (nkey k)) ks' /\ map khead ks' = map khead ks /\
+    adds (kids_entries ks') (new_entries (c0 :: r) fl pidx it nm) (kids_entries ks)
+  | Some (inr _) => True
+  end.
+Proof.
+  induction ks as [|k ks IH]; intros c0 r fl pidx it nm Hw Hk Hs Hn; simpl; [tauto|].
+  inversion Hw as [|? ? Hwk Hwks]; subst. inversion Hk as [|? ? Hkk Hkks]; subst.
+  inversion Hs as [|? ? Hsk Hsks]; subst.
+  destruct (head_is k c0) eqn:Eh.
+  - destruct (set_kid _ fl it nm k (c0 :: r) pidx) as [k'|e] eqn:Ek; [|exact I].
+    destruct (set_kid_spec k c0 r fl pidx it nm k' Eh Hwk Hkk Hsk Hn Ek) as (H1 & H2 & H3 & H4).
+    split; [now constructor|]. split; [now constructor|]. split; [simpl; now rewrite H3|].
+    intros e. rewrite !kids_entries_cons, !in_app_iff. rewrite (H4 e). tauto.
+  - specialize (IH c0 r fl pidx it nm Hwks Hkks Hsks Hn).
+    assert (Hne : khead k <> c0).
+    { intros E. apply head_is_khead in E; [congruence | apply Hkk]. }
+    destruct (set_go _ fl it nm c0 (c0 :: r) pidx ks) as [[ks'|e]|].
+    + destruct IH as (H1 & H2 & H3 & H4). split; [now constructor|]. split; [now constructor|].
+      split; [simpl; now rewrite H3|].
+      intros e. rewrite !kids_entries_cons, !in_app_iff. rewrite (H4 e). tauto.
+    + exact I.
+    + simpl. intros [E|E]; [now apply Hne | now apply IH].
+Qed.
+
+Lemma set_at_ok : forall n, set_ok n.
+Proof.
+  induction n as [key d nm0 f h kids IH] using node_ind'.
+  intros route fl pidx it nm n' Hw Hn. pose proof (wf_inv _ _ _ _ _ _ Hw) as (H1 & H2 & H3 & H4).
+  destruct route as [|c0 r].
+  - intros Hs. simpl in Hs. destruct (apply_item_spec _ _ _ _ Hw Hs) as (A1 & A2 & A3 & A4).
+    repeat split; auto; unfold new_entries; simpl; rewrite map_pre_nil; apply A4.
+  - cbn [set_at].
+    pose proof (set_go_spec kids c0 r fl pidx it nm H1 H2 IH Hn) as Hgo.
+    destruct (set_go _ fl it nm c0 (c0 :: r) pidx kids) as [[kids'|e]|].
+    + intros [= <-]. destruct Hgo as (G1 & G2 & G3 & G4).
+      split; [constructor; auto; [now rewrite G3 | now apply (tok_last_heads kids)]|].
+      split; [reflexivity|]. split; [reflexivity|].
+      intros e. rewrite !paths_node, !in_app_iff, (G4 e). tauto.
+    + discriminate.
+    + destruct (make_route_spec kids (c0 :: r) (skipn pidx fl) it nm) as (kids' & Hmk & Hk' & Ha).
+      * repeat split; auto.
+      * discriminate.
+      * rewrite skipn_length. lia.
+      * exact Hgo.
+      * rewrite Hmk. intros [= <-]. destruct Hk' as (K1 & K2 & K3 & K4).
+        split; [now constructor|]. split; [reflexivity|]. split; [reflexivity|].
+        intros e. rewrite !paths_node, !in_app_iff, (Ha e). unfold new_entries. tauto.
+Qed.
+
+(* RadiDict.add / add_hooks at the root *)
+Theorem wf_insert : forall root route fl it nm root',
+  wf root -> ntok route <= length fl -> set_at root route fl 0 it nm = SOk root' -> wf root'.
+Proof.
+  intros root route fl it nm root' Hw Hn Hs.
+  destruct (set_at_ok root route fl 0 it nm root' Hw) as (H & _); [lia | exact Hs | exact H].
+Qed.
+
+Theorem insert_paths : forall root route fl it nm root',
+  wf root -> ntok route <= length fl -> set_at root route fl 0 it nm = SOk root' ->
+  forall e, In e (paths root') <->
+            In e (map (pre (fpat route fl)) (item_entries it nm)) \/ In e (paths root).
+Proof.
+  intros root route fl it nm root' Hw Hn Hs.
+  destruct (set_at_ok root route fl 0 it nm root' Hw) as (_ & _ & _ & H); [lia | exact Hs|].
+  exact H.
+Qed.
